@@ -127,7 +127,7 @@ class StubHandler:
         self.conn = StubConn()
 
 
-def check_object(res, defs, known=(), replace=True):
+def check_object(res, defs, known=(), replace=True, failed_first=False):
     """defs: interface definitions exported by one object, in order; `known`:
     indexes of definitions that are also registered locally (as different
     objects with the same content)"""
@@ -136,8 +136,24 @@ def check_object(res, defs, known=(), replace=True):
     res.count('transitions')
     res.count('states')
     tag = 'ifaces=%d/known=%d/replace=%s' % (len(defs), len(known), replace)
-    rep = {'defs': defs, 'known': list(known), 'replace': replace}
+    if failed_first:
+        tag += '/after-failed-declaration'
+    rep = {'defs': defs, 'known': list(known), 'replace': replace,
+           'failed_first': failed_first}
     with fakes.KnownInterfaces():
+        if failed_first:
+            # local declarations under the same names that fail part-way (a
+            # typo in a signature, a stray argument): a declaration that
+            # raised has declared nothing
+            for d in defs:
+                members = [I.Method(n, a, b) for n, a, b in d['methods'][:1]]
+                members += [I.Signal(n, s) for n, s in d['signals'][:1]]
+                for bad in (lambda: I.Method('Broken', 'a(i', ''),
+                            lambda: object()):
+                    try:
+                        I.DBusInterface(d['name'], *(members + [bad()]))
+                    except Exception:
+                        pass
         try:
             ifaces = [build_iface(d) for d in defs]
             registered = {}
@@ -302,6 +318,8 @@ def _task_single(task):
         if i % nparts != part:
             continue
         check_object(res, [d])
+        if i % 5 == 0:
+            check_object(res, [d], (), False, failed_first=True)
         if d['methods'] or d['signals'] or d['props']:
             res.count('nontrivial')
         if i % 400 == 0:
@@ -544,5 +562,6 @@ def replay(data):
     if 'incremental' in data:
         res = _task_incremental((False, 0, 1))
         return [(s, v['what']) for s, v in res.violations.items()]
-    check_object(res, data['defs'], tuple(data['known']), data['replace'])
+    check_object(res, data['defs'], tuple(data['known']), data['replace'],
+                 failed_first=data.get('failed_first', False))
     return [(s, v['what']) for s, v in res.violations.items()]
